@@ -449,7 +449,19 @@ class Gen:
         return bytes(r.getrandbits(8) for _ in range(r.randint(1, 4)))
 
     def program(self, lo=1, hi=8):
-        return b''.join(self.snippet(0) for _ in range(self.r.randint(lo, hi)))
+        r = self.r
+        # half of the programs shield (some of) their snippets with TRY so that execution goes on past an error
+        # and later instructions meet the states earlier ones left behind
+        x = r.random()
+        wrap = 0.0 if x < 0.5 else (0.6 if x < 0.8 else 1.0)
+        parts = []
+        for _ in range(r.randint(lo, hi)):
+            sn = self.snippet(0)
+            if wrap and r.random() < wrap and len(sn) < 60000:
+                exc = b'' if r.random() < 0.8 else self.s_push()
+                sn = op('TRY_EXCEPT') + u16(len(sn)) + sn + u16(len(exc)) + exc
+            parts.append(sn)
+        return b''.join(parts)
 
     def raw_program(self, hi=24):
         r = self.r
